@@ -214,6 +214,17 @@ def _history(ctx, gd, rng, steps, edits=True):
             gd = gg.edit_inplace(g, gd, rng)
             nodes = gd["nodes"]
             fz0 = freeze_graph(g)
+            # straight after the edit: the order-based views and the closures of the favourites (a cache that the edit
+            # did not invalidate answers here first)
+            for op2 in ("topological_sort", "districts", "ancestors_inclusive", "descendants_inclusive"):
+                S2 = _vars([n for n in rng.choice(favourites) if n in nodes]) or _vars(nodes[:1])
+                kernel.LOG.reset_case({"graph": gd, "op": "history:" + op2, "S": sorted(map(str, S2))})
+                try:
+                    r2 = getattr(g, op2)() if op2 in ("topological_sort", "districts") else getattr(g, op2)(S2)
+                    if op2 == "topological_sort":
+                        r2 = list(r2)
+                except Exception as e:  # noqa: BLE001
+                    kernel.violation(PROP, op2, f"history: {op2} raised {type(e).__name__}: {e} after an in-place edit")
     if freeze_graph(g) != fz0:
         kernel.violation(PROP, "receiver-unchanged", "graph changed over a call history")
 
